@@ -141,6 +141,8 @@ def check(ctx):
     check_packet_init(ctx)
     check_inits(ctx)
     check_concatenation(ctx)
+    from .c01 import check_driver_symmetry
+    check_driver_symmetry(ctx)
     check_fill_and_buffer(ctx)
     check_assert_consistency(ctx)
     check_pairs(ctx)
